@@ -2,7 +2,10 @@ mod anyf;
 mod framework;
 mod hasher;
 mod rng;
+mod anyn;
 mod s1_filters;
+mod s2_replicas;
+mod s2h_hll;
 mod s3_reservoir;
 mod s4_digest;
 mod s5_topk;
@@ -37,6 +40,15 @@ fn plan(ctx: &mut CheckCtx, k: f64) {
     match ctx.prop {
         "C01" => {
             ctx.run::<s1_filters::S1>(n(300_000));
+            ctx.run::<s2_replicas::S2>(n(50_000));
+        }
+        "C02" => {
+            ctx.required_probes = vec!["row_collision", "net_reorder", "net_duplicate", "node_restart", "converged"];
+            ctx.run::<s2_replicas::S2>(n(100_000));
+        }
+        "C06" => {
+            ctx.required_probes = vec!["net_reorder", "net_duplicate", "net_drop", "net_partition", "net_partition_blocked_delivery", "node_restart", "full_union", "converged", "algebra_commutativity", "algebra_associativity", "algebra_idempotence", "via_json_bytes"];
+            ctx.run::<s2_replicas::S2>(n(200_000));
         }
         "C12" => {
             ctx.run::<s1_filters::S1>(n(200_000));
@@ -69,6 +81,10 @@ fn plan(ctx: &mut CheckCtx, k: f64) {
         "C20" => {
             ctx.required_probes = vec!["accepted", "rejected", "round_trip_ok", "store_truncate", "store_bitflip", "store_torn", "store_field_drop", "store_field_dup", "store_field_range", "store_field_retype"];
             ctx.run::<s8_storage::S8>(n(900));
+        }
+        "C17" => {
+            ctx.required_probes = vec!["net_reorder", "net_duplicate", "via_add", "rest_all_zero"];
+            ctx.run::<s2h_hll::S2h>(n(100_000));
         }
         "C05" => {
             // one evaluation = one (k, n) cell = a batch of sampler runs; the grid is fixed per tier
@@ -105,6 +121,8 @@ fn replay(path: &str) -> i32 {
         "S5a-lossycounter" => replay_case::<s5_topk::S5a>(&doc, prop),
         "S5b-cmsheap" => replay_case::<s5_topk::S5b>(&doc, prop),
         "S8-storage" => replay_case::<s8_storage::S8>(&doc, prop),
+        "S2-replicas" => replay_case::<s2_replicas::S2>(&doc, prop),
+        "S2h-hll-stream-transport" => replay_case::<s2h_hll::S2h>(&doc, prop),
         "S4-digest" => replay_case::<s4_digest::S4>(&doc, prop),
         "S3a-reservoir-invariants" => replay_case::<s3_reservoir::S3a>(&doc, prop),
         "S3b-reservoir-uniformity" => replay_case::<s3_reservoir::S3b>(&doc, prop),
@@ -127,7 +145,7 @@ fn replay(path: &str) -> i32 {
 }
 
 /// Claimed properties (everything `plan` knows).
-const CLAIMED: &[&str] = &["C01", "C04", "C05", "C09", "C10", "C12", "C13", "C14", "C15", "C16", "C18", "C20"];
+const CLAIMED: &[&str] = &["C01", "C02", "C04", "C05", "C06", "C09", "C10", "C12", "C13", "C14", "C15", "C16", "C17", "C18", "C20"];
 
 /// Proves determinism on a sample: every claimed check is run in separate processes with the same
 /// seed at 1, 5 and 16 workers (and the 16-worker one twice); the event-log hashes (per-run
